@@ -54,8 +54,8 @@ void ares_destroy_options(struct ares_options *options)
 static struct in_addr *ares_save_opt_servers(const ares_channel_t *channel,
                                              int                  *nservers)
 {
-  ares_slist_node_t *snode;
-  struct in_addr    *out =
+  const ares_server_t *server;
+  struct in_addr      *out =
     ares_malloc_zero(ares_slist_len(channel->servers) * sizeof(*out));
 
   *nservers = 0;
@@ -64,10 +64,9 @@ static struct in_addr *ares_save_opt_servers(const ares_channel_t *channel,
     return NULL;
   }
 
-  for (snode = ares_slist_node_first(channel->servers); snode != NULL;
-       snode = ares_slist_node_next(snode)) {
-    const ares_server_t *server = ares_slist_node_val(snode);
-
+  /* In configuration order, not in the current order of preference */
+  for (server = ares_server_next_configured(channel, NULL); server != NULL;
+       server = ares_server_next_configured(channel, server)) {
     if (server->addr.family != AF_INET) {
       continue;
     }
